@@ -195,7 +195,10 @@ def random_batches(seed, tier, n_quick, n_thorough, nops, dicts=("A",), **kw):
     return out
 
 
-def design_phys(out, maxops, v4, cycles, timeout=3000, invs="InvFree InvCounts InvWF InvAbs NoGrowth InvOpen", what=None):
+CLASS_RE = re.compile(r'^<<"CLASS", "([^"]*)">>')
+
+
+def design_phys(out, maxops, v4, cycles, timeout=3000, invs="InvFree InvCounts InvWF InvAbs NoGrowth InvOpen", what=None, classes=None):
     """Exhaustive design-level run of MC_Phys (CfbPhys at tiny geometry).  Its verdict is about the
     model; conformance of the code to the model is what phys_fidelity reports."""
     b = lambda x: "TRUE" if x else "FALSE"
@@ -208,12 +211,17 @@ CHECK_DEADLOCK FALSE
     path = os.path.join(core.SPEC, f"_{tag}.cfg")
     open(path, "w").write(cfg)
     try:
-        rc, lines = core.run_tlc("MC_Phys.tla", os.path.basename(path), {}, os.path.join(core.WORK, f"md_{tag}"), workers=6,
-                                 timeout=timeout, xmx="8g", deque=False)
+        rc, lines = core.run_tlc("MC_Phys.tla", os.path.basename(path), {"CLASSES": "1"} if classes is not None else {},
+                                 os.path.join(core.WORK, f"md_{tag}"), workers=6, timeout=timeout, xmx="8g", deque=False)
     finally:
         os.remove(path)
     if not core.tlc_ok(lines):
         raise core.ToolError("MC_Phys (design level) failed:\n" + "\n".join(lines[-30:]))
+    if classes is not None:
+        for ln in lines:
+            m = CLASS_RE.match(ln)
+            if m:
+                classes.add(m.group(1))
     gen, distinct = core.tlc_stats(lines)
     out.add_design(gen, distinct)
     out.parts.append({"design": f"MC_Phys tiny geometry MaxOps={maxops} V4={v4} cycles={cycles}: " +
@@ -226,6 +234,7 @@ class Fidelity:
 
     def __init__(self):
         self.lines = []
+        self.tiny = set()
 
     def summary(self, prop):
         compared = sum(int(m.group(1)) for m in (re.match(r'^<<"COMPARED", (\d+)>>', ln) for ln in self.lines) if m)
@@ -238,6 +247,23 @@ class Fidelity:
             print(f"SPEC-DRIFT {prop} CfbPhys does not predict the image: {k} x{n}")
         res = {"images_predicted_exactly_by_CfbPhys": compared - len(set(ln.split(",")[2] for ln in drift)), "images_compared": compared,
                "drift": kinds}
+        real = {}
+        for ln in self.lines:
+            m = CLASS_RE.match(ln)
+            if m:
+                c = m.group(1).split(":", 1)[1]
+                real[c] = real.get(c, 0) + 1
+        if real or self.tiny:
+            tiny = self.tiny
+            res["case_analysis_coverage"] = {
+                "what": "classes of CfbPhys's case analysis (write / resize case x change of the sector count x table events: FAT, DIFAT, MiniFAT, "
+                        "directory or container sector added, sectors reused / released, MiniFAT trimmed, a chain running backwards); "
+                        "tiny = every transition of the exhaustive tiny-geometry graph (MC_Phys), real = every recorded step of the real library",
+                "classes_at_tiny_geometry": len(tiny), "classes_in_real_executions": len(real),
+                "tiny_classes_reached_by_real_executions": len(set(real) & tiny),
+                "tiny_classes_not_reached": sorted(tiny - set(real))[:60],
+                "real_only_classes": len(set(real) - tiny),
+                "steps_classified": sum(real.values())}
         res.update(self.open_summary(prop))
         return res
 
@@ -342,8 +368,11 @@ def check_c03(tier, seed):
     out = Outcome("C03", tier, seed)
     fid = Fidelity()
     for v4 in (False, True):
-        design_phys(out, 4 if tier == "quick" else 5, v4, False)
-    run_batch(out, "thresholds", "A", gens.threshold_histories(tier, seed))
+        design_phys(out, 4 if tier == "quick" else 5, v4, False, classes=fid.tiny)
+    run_batch(out, "thresholds", "A", gens.threshold_histories(tier, seed))     # (CfbPhys follows chains sector by sector: too slow at 30,000 sectors)
+    run_batch(out, "fatboundary", "A", gens.fat_boundary_histories(tier), extra_specs=("Trace_Phys",), keep=fid.lines)
+    # the cycle histories of C15 reach the release / reuse / trim classes of the case analysis systematically
+    run_batch(out, "cycles", "A", [dict(h, heavy="last") for h in gens.c15_templates(tier)[::3]], extra_specs=("Trace_Phys",), keep=fid.lines)
     for dn, hs in random_batches(seed + 2, tier, 50, 500, 40, dicts=("A", "B", "D")).items():
         run_batch(out, f"random{dn}", dn, hs, extra_specs=("Trace_Phys",), keep=fid.lines)
     # R7 (search tree under CFB order) on the alphabets where CFB order differs from other plausible orders:
